@@ -158,18 +158,18 @@ type event struct {
 }
 
 type snapshot struct {
-	ok                                   bool
-	killCPU, killMem, stopCPU, stopMem   int64 // 0 = nil (unlimited)
-	usedCPU, usedMem                     int64
-	status                               string
-	due                                  bool // read after used
-	dueBefore                            bool // read before used
-	flags                                map[string]bool
-	flagStr                              string
-	ticks                                int
-	hasKillCPU, hasKillMem               bool
-	hasStopCPU, hasStopMem               bool
-	second                               bool // post: callcontext returned a non-nil second value
+	ok                                 bool
+	killCPU, killMem, stopCPU, stopMem int64 // 0 = nil (unlimited)
+	usedCPU, usedMem                   int64
+	status                             string
+	due                                bool // read after used
+	dueBefore                          bool // read before used
+	flags                              map[string]bool
+	flagStr                            string
+	ticks                              int
+	hasKillCPU, hasKillMem             bool
+	hasStopCPU, hasStopMem             bool
+	second                             bool // post: callcontext returned a non-nil second value
 }
 
 func intArg(v rt.Value) (int64, bool) {
@@ -232,15 +232,15 @@ type layerObs struct {
 }
 
 type runObs struct {
-	layers    []layerObs // index 1..n
-	leafSeen  bool
-	leafPos   int // event index of the leaf marker
-	survived  bool
-	stopped   []rt.Value
-	topEnd    bool
-	obs       host.Obs
-	ticks     int
-	evs       []event
+	layers     []layerObs // index 1..n
+	leafSeen   bool
+	leafPos    int // event index of the leaf marker
+	survived   bool
+	stopped    []rt.Value
+	topEnd     bool
+	obs        host.Obs
+	ticks      int
+	evs        []event
 	unbalanced string // the runtime was not back in its initial state after the run
 }
 
@@ -249,11 +249,11 @@ type runObs struct {
 // the previous run left it pristine: context stack back at the root, root
 // context live and unused; otherwise a new one is made.
 type sweeper struct {
-	src  string
-	m    *host.Machine
-	fn   rt.Value
-	evs  []event
-	bad  string // compile error
+	src string
+	m   *host.Machine
+	fn  rt.Value
+	evs []event
+	bad string // compile error
 }
 
 func (sw *sweeper) fresh() {
@@ -630,7 +630,7 @@ func partBFamilies(tier string) []*core.Family {
 	ps := allPrograms()
 	grid := limitGrid(tier)
 	return []*core.Family{{
-		Name: "B-nestings", Size: uint64(len(ps)), BudgetSeconds: 600,
+		Name: "B-nestings", Size: uint64(len(ps)), BudgetSeconds: 420, HangSeconds: 600,
 		Show: func(i uint64) string {
 			return fmt.Sprintf("%s under every outermost kill.cpu of %v\n%s", ps[i].name(), grid, ps[i].src())
 		},
